@@ -42,7 +42,7 @@ META = {
     "rule": "6-40 start operations per run with waits biased to every threshold of the current speed +-2, interface choice, held "
             "starts, speed set drawn per run (single speed / pairs / all three)",
 }
-TIERS = {"quick": {"runs": 4000, "wall": 70}, "thorough": {"runs": 60000, "wall": 900}}
+TIERS = {"quick": {"runs": 3600, "wall": 80}, "thorough": {"runs": 60000, "wall": 900}}
 
 SPEED_NAME = {0: "HIGH", 1: "FULL", 2: "LOW"}
 
@@ -78,13 +78,18 @@ def _gen_device(rng, tier, index):
         data packet.  V2 (60 MHz, ULPI timing) devices are strapped to full or to low speed from power-on (the reset sequencer
         selects low speed only then); V1 is the 12 MHz full-speed-only construction. """
     variant = rng.choice(["V1", "V2", "V2", "V2"])
+    if index % (DEVICE_EVERY * 24) == 7:
+        variant = "V2"
     cfg = {"dut": "device", "variant": variant, "byte_period": rng.choice([1, 1, 2, 5]) if variant == "V2" else 1,
            "pre": rng.choice([1, 1, 2, 4]), "post": rng.choice([0, 0, 1]),
            "speed": rng.choice(["full", "low", "low"]) if variant == "V2" else "full"}
+    if variant == "V2" and index % (DEVICE_EVERY * 24) == 7:
+        # high speed: the device is taken through a real reset + chirp handshake first (2 ms device chirp = 120 000 cycles)
+        cfg["speed"] = "high"
     ops = []
     tog = 0
     for _ in range(rng.randint(4, 12)):
-        if variant == "V2" and rng.random() < 0.15:
+        if variant == "V2" and cfg["speed"] != "high" and rng.random() < 0.15:
             ops.append({"op": "reset", "se0": rng.choice([320, 400, 1000])})         # a bus reset keeps the strapped speed
             tog = 0
         n = rng.choice([0, 1, 2, 8, rng.randint(0, 16)])
@@ -240,6 +245,33 @@ def _run_device(scn):
     def script(h):
         o = yield
         yield from h.idle(120)          # let the strobes the timers produce on their own after power-on pass
+        if cfg["speed"] == "high":
+            # bus reset, device chirp K, three host K-J pairs (plus one), then high-speed idle (SE0)
+            h.set_pins(line_state=LINE_SE0)
+            seen_chirp = False
+            for _ in range(130000):
+                yield
+                if h.sample["tx_valid"]:
+                    seen_chirp = True
+                elif seen_chirp:
+                    break
+            else:
+                raise RuntimeError("device never finished a chirp after a bus reset")
+            yield from h.idle(30)
+            for _ in range(4):
+                h.set_pins(line_state=0b10)      # K
+                yield from h.idle(170)
+                h.set_pins(line_state=0b01)      # J
+                yield from h.idle(170)
+            h.set_pins(line_state=LINE_SE0)
+            for _ in range(3000):
+                yield
+                if h.sample["speed"] == 0 and h.sample["op_mode"] == 0 and h.sample["term_select"] == 0:
+                    break
+            else:
+                raise RuntimeError("device did not enter high-speed operation after a complete chirp handshake")
+            yield from h.idle(150)
+            del h.tx_packets[:]
         for op in ops:
             if op["op"] == "reset":
                 h.set_pins(line_state=LINE_SE0)
@@ -266,19 +298,20 @@ def _run_device(scn):
             return False
 
     low = cfg["speed"] == "low"
+    high = cfg["speed"] == "high"
     line_idle = 0b10 if low else 0b01
     host = usb2.UTMIHost(script, idle_data=cfg.get("idle_data"), byte_period=cfg["byte_period"], pre=cfg["pre"], post=cfg["post"], line_idle=line_idle)
     mon = Mon()
     init = dict(IDLE_INIT)
-    init.update(out1_ready=1, line_state=line_idle, full_speed_only=int(not low), low_speed_only=int(low))
-    cap = 600 + sum(op.get("se0", 0) + 60 if op["op"] == "reset" else
+    init.update(out1_ready=1, line_state=line_idle, full_speed_only=int(not low and not high), low_speed_only=int(low))
+    cap = (140000 if high else 0) + 600 + sum(op.get("se0", 0) + 60 if op["op"] == "reset" else
                     op["tok_gap"] + op["gap"] + (len(op["data"]) // 2 + 8) * (cfg["byte_period"] + 1) + 2 * (cfg["pre"] + cfg["post"] + 4) for op in ops)
     log = bench.run([host, mon], cap, init=init)
     if not host._done:
         raise RuntimeError("host script did not finish within the cycle cap")
     # ---- oracle: one strobe per token / data packet, at end + allowed(speed reported by the device) + d, one d per kind ----
     offs = {"tok": set(), "data": set()}
-    want_speed = 2 if low else 1
+    want_speed = 2 if low else (0 if high else 1)
     for kind, t_end, spd in marks:
         pulses = mon.tok if kind == "tok" else mon.rx
         if spd != want_speed:
